@@ -19,7 +19,8 @@
    in insertion order, [upsert] = d[k] = v.  _blocked_hashes is a set that
    only ever receives an element that is not yet in it (the replay check
    returns earlier), so it is a list without duplicates in insertion order.
-   on_threat is not supplied; silent=True.
+   on_threat: a handler that returns is transparent; one that RAISES: [mfilter_h],
+   [hrun] below (on_inflammation: [icheck_h]).  silent=True.
    rate_limit / enable_adaptive assigned on a live membrane: [lrun] below.
    Signatures are substrings, regexes of the AST of Regex.v, or HOST patterns
    (KHost f: constructs outside the AST such as back-references; the matcher is
@@ -266,6 +267,60 @@ Definition ladmitted (es : list levent) : list Z := map (fun e => r_time (snd e)
 Definition trailing (t : Z) (l : list Z) : Z :=
   Z.of_nat (length (filter (fun u => t - window <? u) l)).
 
+(* ---- callbacks that raise -----------------------------------------------------
+
+   on_threat is a plain public attribute (given to the constructor or assigned
+   on the live membrane).  filter() calls it as the LAST thing it does for a
+   decision that a scan blocked: by then the decision is in the audit trail,
+   _total_blocked is counted and the content hash is in the replay memory.
+   Nothing in filter() catches what the handler raises (an Exception or a
+   BaseException such as KeyboardInterrupt): it propagates to the caller of
+   filter(), who may handle it and go on using the membrane.  The rate-limited
+   and replay branches never call the handler.
+   A [handler] says whether on_threat(result) raises; no handler installed, or a
+   handler that returns: [no_handler].  What a handler does may differ from
+   call to call (a flaky alert sink), so a history pairs every operation with
+   the handler in force at that moment ([hrun]).  The state transition is that
+   of [mfilter] whatever the handler does: this is what makes "keeps blocking
+   an input it has blocked before" survive a failing handler. *)
+Definition handler := mresult -> bool.
+Definition no_handler : handler := fun _ => false.
+
+(* what the caller of filter() gets: the result, or the handler's exception
+   (r = the decision that was made and audited before the handler ran) *)
+Inductive fout := FReturned (r : mresult) | FHandlerRaised (r : mresult).
+Definition fout_result (o : fout) : mresult := match o with FReturned r | FHandlerRaised r => r end.
+Definition fout_raised (o : fout) : bool := match o with FReturned _ => false | FHandlerRaised _ => true end.
+
+Definition mfilter_h (h : handler) (cfg : mconfig) (st : mstate) (content : list Z) : mstate * fout :=
+  let '(st', r) := mfilter cfg st content in
+  (st', if scan_blocked r && h r then FHandlerRaised r else FReturned r).
+
+Definition hevent := (option Z * fout)%type.
+
+Definition hstep (cfg : mconfig) (st : mstate) (o : lop) (h : handler) : mconfig * mstate * option fout :=
+  match o with
+  | LOp (OFilter c) => let '(st', out) := mfilter_h h cfg st c in (cfg, st', Some out)
+  | _ => let '(cfg', st', _) := lstep cfg st o in (cfg', st', None)
+  end.
+
+Fixpoint hrun (cfg : mconfig) (st : mstate) (ops : list (lop * handler)) : mconfig * mstate * list hevent :=
+  match ops with
+  | [] => (cfg, st, [])
+  | (o, h) :: rest =>
+      let '(cfg1, st1, r) := hstep cfg st o h in
+      let '(cfg2, st2, es) := hrun cfg1 st1 rest in
+      (cfg2, st2, match r with Some x => (c_rate cfg, x) :: es | None => es end)
+  end.
+
+(* the live history a caller who ignores the handler's exceptions has performed *)
+Definition forget_handler (e : hevent) : levent := (fst e, fout_result (snd e)).
+
+(* operations that change no rule (signatures, learned patterns): what was
+   submitted before leaves no trace in what a later scan matches *)
+Definition keeps_rules (op : mop) : bool :=
+  match op with OFilter _ | OTick _ | OClearAudit | OSetThreshold _ => true | _ => false end.
+
 (* ---- a colony: several membranes, antibody transfer ------------------------ *)
 
 (* Each Membrane object owns its state; export_antibodies() returns the values
@@ -450,6 +505,30 @@ Fixpoint irun (cc : charcls) (st : istate) (ops : list (list validator * iop)) :
   | [] => st
   | (vals, op) :: rest => irun cc (fst (istep cc vals st op)) rest
   end.
+
+(* on_inflammation: a plain attribute; _evaluate_inflammation calls it, when the
+   new level is above NONE, AFTER the inflammation state has been updated and
+   BEFORE check() counts the block and builds its result.  Nothing catches
+   what it raises: check() then raises out to the caller with _check_count
+   and the inflammation state updated and _block_count not.  [ihandler]: does
+   on_inflammation(response) raise, given the level of the response. *)
+Definition ihandler := Z -> bool.
+Inductive cout := CPlain (o : iout) | CHandlerRaised (lvl : Z).
+
+Definition icheck_h (h : ihandler) (cc : charcls) (vals : list validator) (st : istate) (content : list Z)
+  : istate * cout :=
+  let '(st', o) := icheck cc vals st content in
+  match o with
+  | IRaised => (st', CPlain o)
+  | IOk r =>
+      if (0 <? ir_level r) && h (ir_level r) then
+        (mkIS (i_pats st') (i_threshold st') (i_decay st') (i_clock st') (i_level st') (i_cooldown st')
+              (i_triggers st') (i_checks st') (i_blocks st), CHandlerRaised (ir_level r))
+      else (st', CPlain o)
+  end.
+
+(* operations that install no pattern *)
+Definition keeps_patterns (op : iop) : bool := match op with IAddPattern _ => false | _ => true end.
 
 (* ---- the shipped validators that are simple enough to transcribe ------- *)
 
